@@ -30,10 +30,10 @@ PROPS = {
                 gen=parse_family('C02', 3000, 40000), flavours=['c'],
                 rule='random grammars with random translations (permuted, partial, nil-padded, pass-through, empty); sentences <= 7 tokens; one_parse=1 cost=0; tree compared with the enumerated translations of all derivations',
                 assumptions=COMMON_ASSUME + ['enumeration capped at 3000 derivations per input and 9 tokens (depth_bound: the enumerator is complete for every accepted grammar)', 'C02 is a theorem about the step-for-step models: for every grammar readGrammar accepts and every sentence, the model of make_parse in one-parse mode, run on the parse list of the model of build_pl (levels 0/1), ends within an explicit fuel bound with a table without ALT node that denotes exactly the translation of a derivation of the input, TERM nodes carrying code and position of their tokens (accepted_makeParse_one, makeParse_one_sound, makeParse_one_total, makeParse_one_terms); the two step models are tied to the C code on every parse (identical exports)']),
-    'C03': dict(level='proof', theorem_modules=['C03', 'C02', 'MakeParse', 'MakeParseSound', 'MakeParseTotal', 'HeapWf'], min_theorems=30, tags=['C03'], crash_counts=True,
+    'C03': dict(level='proof', theorem_modules=['C03', 'C02', 'MakeParse', 'MakeParseSound', 'MakeParseTotal', 'HeapWf', 'MakeParseComplete'], min_theorems=30, tags=['C03'], crash_counts=True,
                 gen=lambda seed, tier: parse_family('C03', 3000, 40000)(seed, tier) + capacity_cases(seed, ('L-amb', 'L-deep')), flavours=['c', 'c-weak'],
                 rule='as C02 with one_parse=0: set of trees denoted by the DAG vs set of translations of all derivations',
-                assumptions=COMMON_ASSUME + ['the sound half of C03 is a theorem about the step model of make_parse (makeParse_all_sound: every tree the all-parses forest denotes is the translation of a derivation of the input, for every accepted grammar and input); the all-parses run always ends with a well-formed acyclic forest (makeParse_all_total with the explicit fuel mpAllFuel, makeParse_heap_wf, makeParse_all_not_cyclic; the fuel is exponential and must be: known finding D31; polynomial when no pass-through rule derives itself: makeParse_all_total_poly); the complete half is false of the C code (known finding D9, makeParse_forest_incomplete) and is judged per run with the attribution rule of known_findings.txt']),
+                assumptions=COMMON_ASSUME + ['the sound half of C03 is a theorem about the step model of make_parse (makeParse_all_sound: every tree the all-parses forest denotes is the translation of a derivation of the input, for every accepted grammar and input); the all-parses run always ends with a well-formed acyclic forest (makeParse_all_total with the explicit fuel mpAllFuel, makeParse_heap_wf, makeParse_all_not_cyclic; the fuel is exponential and must be: known finding D31; polynomial when no pass-through rule derives itself: makeParse_all_total_poly); the complete half is a theorem for event-free runs (makeParse_all_complete_eventfree: reuse = 0 and origins = 0, the two counters of the mpev hook line, imply that every translation is denoted) and false otherwise (known finding D9, makeParse_forest_incomplete: the two events are exactly D9a / D9b); it is judged per run, with full force on event-free runs and with the attribution rule of known_findings.txt on runs with an event']),
     'C04': dict(level='proof', theorem_modules=['C04', 'PruneC', 'HeapWf', 'MakeParseTotal', 'RecoveredCost'], min_theorems=30, tags=['C04'], crash_counts=True,
                 gen=lambda seed, tier: parse_family('C04', 3000, 40000)(seed, tier) + capacity_cases(seed, ('L-amb', 'L-deep')), flavours=['c'],
                 rule='random grammars with costs 0-5 (ties included); sentences <= 7 tokens; cost flag on, one_parse in {0,1}, parse_free given or NULL; denoted set vs argmin of total cost over all translations, every cost field vs the additive law',
